@@ -742,8 +742,17 @@ def oracle_C11(lhs, o, t):
     return oracle_seq(lhs, o, t)
 def proj_C12(lhs, o, t):
     return proj_ops(lhs, o, t) if lhs[0] == "O" and tkind(t) == "flex" else ()
-def oracle_C12(lhs, o, t):
+def oracle_C12(lhs, o, t, om=None):
     if lhs[0] != "O" or tkind(t) != "flex": return None
+    # `C12_push_accepts_iff`: when a push is accepted is a theorem about the model (sealable last item, room for a slot header,
+    # representable content whose specified size fits); an implementation that accepts or refuses a top-level push differently has
+    # a failing input
+    ops = op_of(lhs).split(" ")
+    if om is not None and ops and ops[0] == "fpush" and o.get("res") and om.get("res"):
+        oi_ok, om_ok = o["res"] == "ok", om["res"] == "ok"
+        if o["cls"] in ("ok", "err") and om["cls"] in ("ok", "err") and oi_ok != om_ok:
+            return (f"push was {'accepted' if oi_ok else 'refused with ' + o['res']}; by the acceptance theorem it must be "
+                    f"{'accepted' if om_ok else 'refused (' + om['res'] + ')'} in this state")
     return oracle_seq(lhs, o, t)
 REFUSED = re.compile(r"^(full|err:.*)$")
 def refusable(op):
